@@ -23,7 +23,9 @@ package main
 // representable floats, texts, Booleans obtained by comparing constants; key/value through
 // int()/float(); aliases), operators + - * / = != < <= > >= & | and or, constant calls of
 // upper lower str int float strlen substr is_int is_float len join; constant chains for the
-// re-association (x op c1 op c2 op c3 in every bracketing); depth 3 over a reduced pool
+// re-association (x op c1 op c2 op c3 in every bracketing); / - * + chains over integer constants
+// ≥ 2^31 / 2^32 / near 2^63 and the non-dyadic floats 0.1, 0.7 (every bracketing of two and three
+// constants, judged on an extra store with values around 2^32); depth 3 over a reduced pool
 // (thorough); random deeper trees (own generator + the typed statement generator XGen).
 //
 // Protocol:  FOLD <wire-expr>  ->  ok <wire-ret> <wire-node> | panic <site>
@@ -48,6 +50,10 @@ var foldStores = [][]KV{
 	{{"a", "1"}, {"ab", "7"}, {"b", "-3"}, {"k1", "0.5"}, {"k2", "1e16"}},
 	{{"", "abc"}, {"2", "2"}, {"K", "9007199254740993"}, {"z", "9223372036854775807"}, {"zz", "0.25"}},
 }
+
+// foldWideStore: for the chains over constants ≥ 2^31 (origin "wide:…"): values around 2^32 and
+// 2^33 (a wrapped product of divisors changes their quotient), both ends of int64
+var foldWideStore = []KV{{"h", "6074001000"}, {"m", "8589934592"}, {"q", "4294967296"}, {"y", "-9223372036854775808"}, {"yy", "-8589934593"}}
 
 func foldChunk(st []KV) []kvql.KVPair {
 	ks := make([]KV, len(st))
@@ -242,6 +248,48 @@ func foldCases(e *Env) []foldCase {
 			}
 		}
 	}
+	// (3b) / and - chains (and + * again) over integer constants ≥ 2^31 and ≥ 2^32 — the product or sum
+	// of two of them leaves int64 — and the non-dyadic floats 0.1, 0.7; every bracketing of two and
+	// of three constants.  Judged on the usual stores and on foldWideStore.
+	xsWide := []string{"int(value)", "float(value)", "strlen(key)"}
+	cs2 := []string{"2", "3", "0.5", "0.1", "0.7", "2147483648", "4294967296", "4294967297", "3037000500", "9223372036854775807"}
+	cs3 := []string{"2", "0.7", "2147483648", "4294967296", "4294967297"}
+	for _, op := range []string{"/", "-", "*", "+"} {
+		for _, x := range xsWide {
+			for _, c1 := range cs2 {
+				for _, c2 := range cs2 {
+					out = append(out, foldCase{foldStmt("", "(("+x+" "+op+" "+c1+") "+op+" "+c2+")", "num"), "wide:chain2"})
+					out = append(out, foldCase{foldStmt("", "("+x+" "+op+" ("+c1+" "+op+" "+c2+"))", "num"), "wide:chain2"})
+					out = append(out, foldCase{foldStmt("", "((("+x+" "+op+" "+c1+") "+op+" "+c2+") = 0)", "bool"), "wide:chain2-cmp"})
+				}
+			}
+			for _, c1 := range cs3 {
+				for _, c2 := range cs3 {
+					for _, c3 := range cs3 {
+						for _, sh := range []string{
+							"(((" + x + " " + op + " " + c1 + ") " + op + " " + c2 + ") " + op + " " + c3 + ")",
+							"((" + x + " " + op + " (" + c1 + " " + op + " " + c2 + ")) " + op + " " + c3 + ")",
+							"(" + x + " " + op + " ((" + c1 + " " + op + " " + c2 + ") " + op + " " + c3 + "))",
+							"(" + x + " " + op + " (" + c1 + " " + op + " (" + c2 + " " + op + " " + c3 + ")))",
+							"((" + x + " " + op + " " + c1 + ") " + op + " (" + c2 + " " + op + " " + c3 + "))",
+						} {
+							out = append(out, foldCase{foldStmt("", sh, "num"), "wide:chain3"})
+						}
+					}
+				}
+			}
+		}
+	}
+	// mixed / and *, - and +, over the large constants (left-deep, as written without brackets)
+	for _, x := range xsWide {
+		for _, c1 := range cs3 {
+			for _, c2 := range cs3 {
+				for _, ops := range [][2]string{{"/", "*"}, {"*", "/"}, {"-", "+"}, {"+", "-"}} {
+					out = append(out, foldCase{foldStmt("", "(("+x+" "+ops[0]+" "+c1+") "+ops[1]+" "+c2+")", "num"), "wide:mixed2"})
+				}
+			}
+		}
+	}
 	xsStr := []string{"key", "value", "upper(key)", "(key + 'x')", "str(int(value))"}
 	csStr := []string{"'a'", "''", "'1'", "'b2'"}
 	for _, x := range xsStr {
@@ -297,6 +345,10 @@ type foldGen struct {
 
 func (g *foldGen) numAtom() string {
 	if g.r.Chance(3, 5) {
+		if g.r.Chance(1, 8) {
+			// integers ≥ 2^31 / 2^32 / near 2^63, non-dyadic floats
+			return pick(g.r, []string{"2147483648", "4294967296", "4294967297", "9223372036854775807", "3037000500", "0.1", "0.7", "65536"})
+		}
 		return pick(g.r, []string{"0", "1", "2", "3", "7", "-2", "0.5", "1.5", "2.0", "0.25", "4.0"})
 	}
 	if g.alias && g.r.Chance(1, 2) {
@@ -324,6 +376,14 @@ func (g *foldGen) num(d int) string {
 		op := pick(g.r, []string{"+", "*", "+", "*", "-", "/"})
 		// left-deep chains with constants on the right are what tryReorderBinaryOp looks for
 		if g.r.Chance(1, 2) {
+			if g.r.Chance(1, 4) {
+				// the same operator twice: x op c1 op c2, either bracketing
+				c1, c2 := g.numAtom(), g.numAtom()
+				if g.r.Bool() {
+					return "((" + g.num(d-1) + " " + op + " " + c1 + ") " + op + " " + c2 + ")"
+				}
+				return "(" + g.num(d-1) + " " + op + " (" + c1 + " " + op + " " + c2 + "))"
+			}
 			return "(" + g.num(d-1) + " " + op + " " + g.numAtom() + ")"
 		}
 		return "(" + g.num(d-1) + " " + op + " " + g.num(d-1) + ")"
@@ -417,7 +477,6 @@ func foldRandomCase(e *Env, idx uint64) foldCase {
 	return foldCase{"select " + prefix + x + " as f where " + g.boolean(1+r.Intn(2)), "random:deep"}
 }
 
-
 // ---------------------------------------------------------------- raw trees (not through the parser)
 
 // The optimizer is public API (`ExpressionOptimizer{Root}`) and the theorem speaks of every tree,
@@ -485,9 +544,9 @@ func rawLeaf(r *Rand) *rawNode {
 	pos := r.Intn(40)
 	switch r.Intn(12) {
 	case 0, 1:
-		return &rawNode{kind: "M", pos: pos, i: int64(pick(r, []int{0, 1, 2, 3, -1, 7, 9223372036854775807, -9223372036854775808}))}
+		return &rawNode{kind: "M", pos: pos, i: pick(r, []int64{0, 1, 2, 3, -1, 7, 9223372036854775807, -9223372036854775808, 2147483648, 4294967296, 4294967297, 3037000500})}
 	case 2, 3:
-		return &rawNode{kind: "D", pos: pos, f: pick(r, []float64{0.5, 1.5, 2.0, 0.0, -0.25, 1e16, 1e308})}
+		return &rawNode{kind: "D", pos: pos, f: pick(r, []float64{0.5, 1.5, 2.0, 0.0, -0.25, 1e16, 1e308, 0.1, 0.7})}
 	case 4, 5:
 		return &rawNode{kind: "S", pos: pos, data: pick(r, []string{"a", "", "12", "0.5", "B", "a,b"})}
 	case 6:
@@ -528,7 +587,7 @@ func rawTree(r *Rand, d int) *rawNode {
 		return &rawNode{kind: "B", pos: pos, op: op, kids: []*rawNode{rawTree(r, d-1), right}}
 	case 5, 6:
 		// left-deep chain with literals on the right
-		op := pick(r, []kvql.Operator{kvql.Add, kvql.Mul})
+		op := pick(r, []kvql.Operator{kvql.Add, kvql.Mul, kvql.Add, kvql.Mul, kvql.Sub, kvql.Div})
 		n := &rawNode{kind: "B", pos: pos, op: op, kids: []*rawNode{rawTree(r, d-1), rawLeaf(r)}}
 		for i := r.Intn(3); i > 0; i-- {
 			n = &rawNode{kind: "B", pos: r.Intn(40), op: op, kids: []*rawNode{n, rawLeaf(r)}}
@@ -653,14 +712,20 @@ func runFOLD(e *Env) (*Summary, error) {
 	for i, st := range foldStores {
 		chunks[i] = foldChunk(st)
 	}
+	wideStores := append(append([][]KV{}, foldStores...), foldWideStore)
+	wideChunks := append(append([][]kvql.KVPair{}, chunks...), foldChunk(foldWideStore))
 	err := e.parallel(func(w int, d *Driver) error {
 		for idx := w; idx < len(cases); idx += e.Workers {
-			if err := foldCheck(e, col, d, uint64(idx), cases[idx], chunks); err != nil {
+			cs, sts := chunks, foldStores
+			if strings.HasPrefix(cases[idx].origin, "wide:") {
+				cs, sts = wideChunks, wideStores
+			}
+			if err := foldCheck(e, col, d, uint64(idx), cases[idx], cs, sts); err != nil {
 				return err
 			}
 		}
 		for idx := w; idx < nRandom; idx += e.Workers {
-			if err := foldCheck(e, col, d, uint64(idx), foldRandomCase(e, uint64(idx)), chunks); err != nil {
+			if err := foldCheck(e, col, d, uint64(idx), foldRandomCase(e, uint64(idx)), chunks, foldStores); err != nil {
 				return err
 			}
 		}
@@ -679,7 +744,7 @@ func runFOLD(e *Env) (*Summary, error) {
 	return s, nil
 }
 
-func foldCheck(e *Env, col *Collector, d *Driver, idx uint64, c foldCase, chunks [][]kvql.KVPair) error {
+func foldCheck(e *Env, col *Collector, d *Driver, idx uint64, c foldCase, chunks [][]kvql.KVPair, stores [][]KV) error {
 	orig, perr := parseTargets(c.q)
 	if perr != nil {
 		col.Hist("parse:rejected", "parse:rejected:"+strings.SplitN(c.origin, ":", 2)[0])
@@ -701,13 +766,13 @@ func foldCheck(e *Env, col *Collector, d *Driver, idx uint64, c foldCase, chunks
 			name = "where"
 			to, tn = orig.Where.Expr, opt.Where.Expr
 		}
-		sample := strings.HasPrefix(c.origin, "main") || strings.HasPrefix(c.origin, "chain")
+		sample := strings.HasPrefix(c.origin, "main") || strings.HasPrefix(c.origin, "chain") || (strings.HasPrefix(c.origin, "wide") && idx%7 == 0)
 		if err := foldJudge(e, col, d, idx, name, fmt.Sprintf("%s of `%s`", name, c.q), "", sample, to, tn, chunks); err != nil {
 			return err
 		}
 	}
 	// ---- C04 on the statement
-	foldStmtCheck(e, col, idx, c)
+	foldStmtCheck(e, col, idx, c, stores)
 	return nil
 }
 
@@ -890,8 +955,8 @@ func foldReferenceRows(q string, chunk []kvql.KVPair, batch bool, rowProjection 
 	return rows, class
 }
 
-func foldStmtCheck(e *Env, col *Collector, idx uint64, c foldCase) {
-	for si, st := range foldStores {
+func foldStmtCheck(e *Env, col *Collector, idx uint64, c foldCase, stores [][]KV) {
+	for si, st := range stores {
 		chunk := foldChunk(st)
 		for _, batch := range []bool{false, true} {
 			mode := "row"
